@@ -751,6 +751,20 @@ func main() {
 		}
 	}
 
+	// ---- (c2) directed: at every refill of the 4096-byte buffer a multi-line envelope has a blank
+	//          line inside, directly followed by a line that starts 0..6 bytes before the end of
+	//          the buffered data ----
+	ndir := o.Count(40, 600)
+	for i := 0; i < ndir; i++ {
+		drv := "fixedlength2"
+		if i%5 == 4 {
+			drv = "csv2"
+		}
+		c := genDirected(r, drv, i%5, i/5)
+		h.generated(c, i%10 == 0)
+		h.sum.Hist("directed-refill-input")
+	}
+
 	// ---- (d) EDI inputs of several scanner-buffer refills, and readers alive at once ----
 	nedi := o.Count(90, 2000)
 	var edis []*Case
